@@ -70,8 +70,9 @@ def evmCosting (dest : Addr) (cost refundAdd : Nat) : Evm := fun m w refund gas 
   if (w.get m.sender).balance < (m.f.value : Int) then
     { world := w, refund := refund, gasLeft := gas, vmerr := .insufficientBalance }
   else
-    let w1 := if m.f.to.isSome then w else w.setNonce m.sender (((w.get m.sender).nonce + 1) % U64)
-    { world := w1.transfer m.sender dest m.f.value, refund := refund + refundAdd, gasLeft := gas - min gas cost, vmerr := .none }
+    if m.f.to.isNone && occupied (bumpIfCreate m w) dest then collisionOut (bumpIfCreate m w) refund   -- occupied address
+    else { world := (bumpIfCreate m w).transfer m.sender dest m.f.value, refund := refund + refundAdd,
+           gasLeft := gas - min gas cost, vmerr := .none }
 
 /-- the errors that are raised before anything is touched -/
 def Err.upFront : Err → Bool
